@@ -495,6 +495,8 @@ func emitConsts(w io.Writer) {
 	fmt.Fprintf(w, "Definition maxRecoveryProbeVoters : N := %d.\n", replication.VerifMaxRecoveryProbeVoters)
 	fmt.Fprintln(w, "(* fixed per-record byte cost used by every page budget (96 + strings + payload) *)")
 	fmt.Fprintf(w, "Definition recordFixedBytes : N := %d.\n", 96)
+	fmt.Fprintln(w, "(* size of a re-encoded compatibility message without strings and payload: 45-byte header, seven length prefixes, channel id, timestamp trailer *)")
+	fmt.Fprintf(w, "Definition pebbleRecordFixedBytes : N := %d.\n", 45+7*4+len(channelID.ID)+12)
 	fmt.Fprintln(w, "(* quorumlog.AppendOutcome enumeration *)")
 	fmt.Fprintf(w, "Definition outcomeDurable : N := %d.\n", ch.AppendOutcomeDurable)
 	fmt.Fprintf(w, "Definition outcomeAlreadyDurable : N := %d.\n", ch.AppendOutcomeAlreadyDurable)
